@@ -439,7 +439,9 @@ class TriaMesh:
         np.add.at(n, self.t[:, 2], cr2)
         # Normalize normals
         ln = np.sqrt(np.sum(n * n, axis=1))
-        ln[ln == 0] = 1  # avoid division by zero
+        # sums that cancel to rounding level (relative to the longest one) are
+        # left as they are; this also avoids the division by zero
+        ln[ln <= sys.float_info.epsilon * np.max(ln, initial=0.0)] = 1
         n = n / ln.reshape(-1, 1)
         # lni = np.divide(1.0, ln)
         # n[:, 0] *= lni
